@@ -274,10 +274,10 @@ struct Run {
     void marathon(long count) {
         manyCount = count;
         // (A)
-        w[0].cmd = C_MANY_READS; w[0].wantWrite = false;
+        w[0].cmd = C_MANY_READS; w[0].wantWrite = false; w[0].arrival = arrivals++;
         for (long g = 0; g < 4 * count + 100 && !holding(0); ++g) vs::step(w[0].vt);
         if (!holding(0)) { complain("C02: taking many read locks on one thread does not complete"); return; }
-        w[1].cmd = C_LOCK_W; w[1].wantWrite = true; w[1].holdsWrite = false;
+        w[1].cmd = C_LOCK_W; w[1].wantWrite = true; w[1].holdsWrite = false; w[1].arrival = arrivals++;
         toBoundary(1); if (!parked(1) && !holding(1)) toBoundary(1);
         if (holding(1)) { complain("C01: the write lock was granted while another thread holds " + std::to_string(count) + " read locks"); return; }
         // thread 0 gives one read lock back
@@ -289,34 +289,39 @@ struct Run {
         for (int g = 0; g < 4 && !holding(1); ++g) toBoundary(1);
         if (!holding(1)) { complain("C02: the writer is not granted after every read lock was released"); return; }
         w[1].holdsWrite = true;
-        // (B) thread 1 holds the write lock; thread 0 queues; they alternate
-        int holder = 1, waiter = 0;
-        w[waiter].cmd = C_LOCK_W; w[waiter].wantWrite = true;
-        toBoundary(waiter); if (!parked(waiter)) toBoundary(waiter);
+        // (B) thread 1 holds the write lock, threads 0 and 2 queue behind it; from then on the holder releases, the request
+        // at the head of the queue must be the one that is granted, and the old holder queues again at the tail: the lock
+        // never becomes idle, every round hands out one more ticket
+        int holder = 1;
+        std::deque<int> q;
+        for (int t : {0, 2}) {
+            w[t].cmd = C_LOCK_W; w[t].wantWrite = true; w[t].arrival = arrivals++;
+            toBoundary(t); if (!parked(t) && !holding(t)) toBoundary(t);
+            if (holding(t)) { complain("C01: a write request was granted while another writer holds the lock"); return; }
+            q.push_back(t);
+        }
         for (long i = 0; i < count; ++i) {
-            if (!parked(waiter) || !holding(holder)) {
-                complain(std::string("C01: hand-over ") + std::to_string(i) + ": the queued writer " + (holding(waiter) ? "holds the lock together with the holder" : "is neither parked nor holding"));
-                return;
-            }
             w[holder].cmd = C_UNLOCK;
             for (int g = 0; g < 8 && !atIdle(holder); ++g) vs::step(w[holder].vt);       // unlock + notify
-            for (int g = 0; g < 4 && !holding(waiter); ++g) toBoundary(waiter);
-            if (!holding(waiter)) { complain("C02: hand-over " + std::to_string(i) + ": the queued writer was not granted after the holder released"); return; }
-            std::swap(holder, waiter);
-            w[waiter].cmd = C_LOCK_W; w[waiter].wantWrite = true;
-            toBoundary(waiter); if (!parked(waiter) && !holding(waiter)) toBoundary(waiter);
-            if (holding(waiter)) { complain("C01: hand-over " + std::to_string(i) + ": a write request was granted while another writer holds the lock"); return; }
+            int next = q.front(); q.pop_front();
+            int other = q.front();
+            for (int g = 0; g < 4 && !holding(next); ++g) { toBoundary(next); if (parked(other) && w[other].vt->notified && vs::enabled(w[other].vt)) toBoundary(other); }
+            if (holding(other)) {
+                complain(std::string(holding(next) ? "C01: C03: " : "C03: ") + "round " + std::to_string(i) + ": the write request parked later was granted " +
+                         (holding(next) ? "together with" : "before") + " the one parked earlier");
+                return;
+            }
+            if (!holding(next)) { complain("C02: round " + std::to_string(i) + ": the request at the head of the queue was not granted after the holder released"); return; }
+            w[next].holdsWrite = true;
+            w[holder].cmd = C_LOCK_W; w[holder].wantWrite = true; w[holder].holdsWrite = false; w[holder].arrival = arrivals++;
+            toBoundary(holder); if (!parked(holder) && !holding(holder)) toBoundary(holder);
+            if (holding(holder)) {
+                complain("C01: C03: round " + std::to_string(i) + ": a new write request was granted at once although another writer holds the lock and an earlier request is still parked");
+                return;
+            }
+            q.push_back(holder);
+            holder = next;
         }
-        // a third writer queues behind the waiter: grants must follow arrival
-        w[2].cmd = C_LOCK_W; w[2].wantWrite = true;
-        toBoundary(2); if (!parked(2) && !holding(2)) toBoundary(2);
-        if (holding(2)) { complain("C01: after " + std::to_string(count) + " hand-overs a write request was granted while another writer holds the lock"); return; }
-        w[holder].cmd = C_UNLOCK;
-        for (int g = 0; g < 8 && !atIdle(holder); ++g) vs::step(w[holder].vt);
-        for (int g = 0; g < 4; ++g) { if (parked(waiter) && w[waiter].vt->notified) toBoundary(waiter); if (parked(2) && w[2].vt->notified) toBoundary(2); }
-        if (holding(2) && !holding(waiter)) complain("C03: after " + std::to_string(count) + " hand-overs the later write request was granted before the one parked earlier");
-        if (holding(2) && holding(waiter)) complain("C01: two writers hold the lock");
-        w[waiter].holdsWrite = holding(waiter); w[2].holdsWrite = holding(2);
     }
     void freeGranted(int t) {
         w[t].holdsWrite = w[t].wantWrite;
